@@ -8,6 +8,16 @@ CLAIMS['C15'] = dict(
          '__getitem__ and observe() shapes. This is the whole copy-paste-slip class the property describes; it does not decide '
          "raysect's Node.parent semantics or validation inside member observers.",
     technique='ast lint: property/decorator binding, attribute agreement, structured guard dominance')
+CLAIMS['C20'] = dict(
+    text='Decides the derivative-operator clause whole for all grids >= 2x2: the stencil loop body is partially evaluated for '
+         'each of the 9 admissible boundary configurations of a cell (a row depends only on the configuration) and the moment '
+         'conditions (constants annihilated; Dx, Dy exact on linear, Dxy on bilinear, Dxx/Dyy on quadratic fields in interior '
+         'cells; scaling by dx, dy) are exact rational identities. For the ADMT operator decides, as exact identities of '
+         'rational functions in the jet variables of psi and D, the tensor components, cx = d_x cxx + d_y cxy + cxx/R, '
+         'cy = d_x cxy + d_y cyy + cxy/R (consistency with div(D grad f) in cylindrical geometry), the isotropic reduction to '
+         'the Laplacian for any flux map, and the assembly times sqrt(dx dy). Does not decide convergence order on curved fields '
+         'or finiteness where grad psi = 0.',
+    technique='finite-configuration partial evaluation of the stencil loop + exact rational-function algebra with formal derivatives')
 _pending = 'check not built yet in this session (see DESIGN.md build order); not claimed until it is'
-for _p in ['C01','C02','C03','C04','C05','C06','C07','C08','C09','C10','C11','C12','C13','C14','C16','C17','C18','C19','C20']:
+for _p in ['C01','C02','C03','C04','C05','C06','C07','C08','C09','C10','C11','C12','C13','C14','C16','C17','C18','C19']:
     NA[_p] = _pending
